@@ -370,7 +370,12 @@ func (w *Worker) runC16Case(idx int64) {
 	}
 
 	history := []C16Step{{Pert: "none"}} // the same-schedule repeat above
-	for k := 1; k <= w.K; k++ {
+	K := w.K
+	if ref.steps > 3_000_000 { // step counts, not wall time: the case content must not depend on load
+		K = 2 // an expensive case: fewer schedules, so that the case stays within its time box
+		w.St.Probes["expensive_cases_with_reduced_K"]++
+	}
+	for k := 1; k <= K; k++ {
 		pert, lidx := drawPerturbation(g.R, spec, base)
 		var decoy *Call
 		if g.R.Chance(1, 3) {
